@@ -640,9 +640,8 @@ func (t *Terminal) handleKey(key rune) (line []string, ok bool) {
 		if !isPrintable(key) {
 			return
 		}
-		if len(t.line) == maxLineLength {
-			return
-		}
+		// (no upper bound on the entry: a pending statement keeps all its
+		// lines here, and dropping keys silently changes what is executed)
 		t.addKeyToLine(key)
 	}
 	return
